@@ -76,13 +76,16 @@ def replay_path(prop, sub, case, tag=""):
     return os.path.join("replays", prop, name)
 
 
-def write_replay(prop, sub, case, detail, shrunk):
+def write_replay(prop, sub, case, detail, shrunk, prelude=None):
     path = replay_path(prop, sub, case)
     full = os.path.join(core.VERIF, path)
     os.makedirs(os.path.dirname(full), exist_ok=True)
+    record = {"property": prop, "subcheck": sub, "case": case, "detail": detail, "shrunk": shrunk}
+    if prelude:
+        # the failure needs the preceding case(s) of the same process (state carried by the library between calls)
+        record["prelude"] = prelude
     with open(full, "w") as handle:
-        json.dump({"property": prop, "subcheck": sub, "case": case, "detail": detail, "shrunk": shrunk}, handle,
-                  sort_keys=True)
+        json.dump(record, handle, sort_keys=True)
         handle.write("\n")
     return path
 
@@ -96,7 +99,7 @@ def run_hypothesis(prop, sc, tier, seed, examples, stats):
     from hypothesis import HealthCheck, Phase, Verbosity, given, settings
     from hypothesis.internal.conjecture import engine
     engine.MAX_SHRINKING_SECONDS = 30 if tier == "quick" else 120
-    state = {"first": None, "last": None}
+    state = {"first": None, "last": None, "prev": [], "prelude": None}
 
     @hypothesis.seed(seed)
     @settings(max_examples=examples, database=None, deadline=None, derandomize=False, report_multiple_bugs=False,
@@ -104,6 +107,8 @@ def run_hypothesis(prop, sc, tier, seed, examples, stats):
               verbosity=Verbosity.quiet)
     @given(sc.strategy(tier))
     def test(case):
+        previous = list(state["prev"])
+        state["prev"] = (state["prev"] + [case])[-8:]
         out = evaluate_guarded(sc, case)
         if state["first"] is None:
             stats.record(case, out)
@@ -115,6 +120,7 @@ def run_hypothesis(prop, sc, tier, seed, examples, stats):
             state["last"] = (case, out.detail)
             if state["first"] is None:
                 state["first"] = (case, out.detail)
+                state["prelude"] = previous
                 write_replay(prop, sc.name, case, out.detail, shrunk=False)
             raise Violation(out.detail)
 
@@ -127,19 +133,31 @@ def run_hypothesis(prop, sc, tier, seed, examples, stats):
     except Exception as exc:
         if state["first"] is None:
             raise
-        stats.errors.append("hypothesis reported %s after a violation was found: %s" % (type(exc).__name__, exc))
+        if "Flaky" not in type(exc).__name__:
+            stats.errors.append("hypothesis reported %s after a violation was found: %s"
+                                % (type(exc).__name__, str(exc)[:300]))
     if state["first"] is not None:
         chosen = None
         for case, detail in (state["last"], state["first"]):
             out = evaluate_guarded(sc, case)
             if not out.ok and not is_suppressed(prop, out):
-                chosen = (case, out.detail)
+                chosen = (case, out.detail, None)
                 break
+        if chosen is None and state["prelude"]:
+            # not reproducible from one case: state carried between calls - replay the preceding cases first
+            for start in range(len(state["prelude"]) - 1, -1, -1):
+                for earlier in state["prelude"][start:]:
+                    evaluate_guarded(sc, earlier)
+                out = evaluate_guarded(sc, state["first"][0])
+                if not out.ok and not is_suppressed(prop, out):
+                    chosen = (state["first"][0], out.detail, state["prelude"][start:])
+                    break
         if chosen is None:
             stats.errors.append("violation of %s did not reproduce on re-evaluation (flaky oracle?): %s"
                                 % (sc.name, state["first"][1]))
         else:
-            path = write_replay(prop, sc.name, chosen[0], chosen[1], shrunk=chosen[0] is state["last"][0])
+            path = write_replay(prop, sc.name, chosen[0], chosen[1], shrunk=chosen[0] is state["last"][0],
+                                prelude=chosen[2])
             first_path = replay_path(prop, sc.name, state["first"][0])
             if first_path != path and os.path.exists(os.path.join(core.VERIF, first_path)):
                 os.remove(os.path.join(core.VERIF, first_path))
@@ -200,7 +218,10 @@ def run_fuzz(prop, sc, tier, shard, seed, stats):
         stats.classes.update(data["classes"])
         stats.classes["fuzz_execs"] += data["execs"]
         stats.classes["fuzz_corpus:" + ("seeded" if shard % 2 else "empty")] += 1
-        stats.nontrivial |= {("fuzz-%d-%d" % (shard, i)).encode() for i in range(data["nontrivial"])}
+        if "digests" in data:
+            stats.nontrivial |= {bytes.fromhex(d) for d in data["digests"]}
+        else:
+            stats.nontrivial |= {("fuzz-%d-%d" % (shard, i)).encode() for i in range(data["nontrivial"])}
         stats.samples += data["samples"]
         if data["violation"]:
             stats.violations.append({"subcheck": sc.name, "replay": data["violation"]["replay"],
@@ -246,6 +267,8 @@ def run_replay(prop, path):
     if sub is None:
         print("HARNESS-ERROR unknown sub-check %r in %s" % (data["subcheck"], path))
         return 2
+    for earlier in data.get("prelude", []):
+        evaluate_guarded(sub, earlier)
     out = evaluate_guarded(sub, data["case"])
     if out.ok or is_suppressed(prop, out):
         print("replay %s: property holds (%s)" % (path, ",".join(out.classes)))
